@@ -503,6 +503,31 @@ class Check(PropertyCheck):
     def finding_key(self, case, obs):
         return None
 
+    def shrink(self, case, failing, depth=0):
+        """Smallest failing part: an operand of the composite / a block of the container that fails alone."""
+        import lib
+
+        if depth > 4:
+            return case
+        names = []
+        if case['kind'] == 'composite':
+            names = list(case['ops']) + list(case.get('ops2') or [])
+        elif case['kind'] == 'operand':
+            names = sorted(G.used_names(LET.get(case['name'], {}).get('blocks') or LET.get(case['name'], {}).get('ops')
+                                        or LET.get(case['name'], {}).get('of') or LET.get(case['name'], {}).get('e') or []))
+        t = typed()
+        for n in dict.fromkeys(names):
+            if n not in t or n == case.get('name') or contains_inverse(env()[n]):
+                continue
+            c = {'kind': 'operand', 'name': n, 'seed': case['seed']}
+            try:
+                obs = lib.canon(self.run_impl(c))
+                if self.oracle(c, obs):
+                    return self.shrink(c, failing, depth + 1)
+            except Exception:
+                continue
+        return case
+
     # -- oracle -----------------------------------------------------------------------------------
     def oracle(self, case, obs):
         if not isinstance(obs, dict) or 'build_error' in obs:
